@@ -391,6 +391,10 @@ static struct rnode *rnode_atom(char **pat)
 		} else {
 			rnode->maxcnt = rnode->mincnt;
 		}
+		if (**pat != '}') {	/* unterminated or malformed bound */
+			rnode_free(rnode);
+			return NULL;
+		}
 		++*pat;
 		if (rnode->mincnt > NREPS || rnode->maxcnt > NREPS) {
 			rnode_free(rnode);
